@@ -192,6 +192,35 @@ CHECKS = {
         note="Trusted base: TLC + CommunityModules. What the server does with malformed messages is not constrained beyond safety; "
              "volatile attributes (tcp.rtt etc.) are compared by type and length only; counters exactly at quiescent samples. Memory safety "
              "rests on ASan/UBSan over the replayed behaviours. A mismatch class is reported only if a solo re-run reproduces it."),
+    "C10": dict(
+        text="spec/Attr.tla holds the attribute TABLE (49 attributes: type, presence group, mode r / rw / creation-only, volatility, "
+             "inheritance by accept) derived from the code and xcm.h, and states ExpectGet(type, size, accessor, capacity) - return value, "
+             "admissible errno set, maximum bytes written - SetErrnos / SetFirst over name, type, length class and value class, and the laws "
+             "LawWriteBound, LawOverflow, LawSetErrors; spec/AttrMC.tla (mode vec) enumerates with TLC every read vector (socket kind x "
+             "transport x life point x attribute x accessor gen/gen0/fgen/bool/int64/double/str/bin/fstr/fbin x capacity) and write vector "
+             "plus names outside the table (malformed, long, deep, aliases) with the expected outcome class. harness/attr_exec brings a real "
+             "socket to each life point (fresh through a creation map, connecting held by a real backlog-0 listener, handshaking, "
+             "established, peer closed, failed, server), executes each read twice into canary-framed buffers with different fills and once "
+             "into an exactly sized heap block (ASan), each write with a snapshot of all attributes and kernel options before and after, and "
+             "spec/AttrTrace.tla judges every recorded call; the attributes actually present must be in the table (else exit 2).",
+        ref="5/C10", tech="TLA+ table specification enumerated by TLC; every vector executed on real sockets and validated by a trace specification",
+        note="Trusted base: TLC + CommunityModules. Memory safety is observed by canaries + ASan on the enumerated vectors, not expressed in the "
+             "model. The 'resolving' life point is not exercised here (no resolver); SCTP is not built."),
+    "C11": dict(
+        text="spec/Attr.tla life model: pure step functions on a state with want (what xcm_attr_get must report), snap (options snapshot at "
+             "connect), kern (kernel option values), blocking mode, source address, TLS flags and names, and the server's; steps Connect "
+             "(held or not, with a map), Server, ServerSet, Accept (with a map), SetTcp (default / alternative / inadmissible), SetBlk "
+             "(attribute or API), SetCO (creation-only), Establish, PeerClose; spec/AttrMC.tla (mode life) checks InvInForce, "
+             "InvNoKernBeforeFd, InvWantOk, InvInherit, CreationOnlyKeeps and prints one path per transition. harness/attr_exec replays the "
+             "paths on real tcp/tls/utls/btcp/btls sockets (connect held in progress by a backlog-0 listener and released later) and "
+             "records after every step xcm_attr_get of the five TCP options, getsockopt(SO_KEEPALIVE, TCP_KEEPIDLE, TCP_KEEPINTVL, "
+             "TCP_KEEPCNT, TCP_USER_TIMEOUT) on the connection's descriptor, xcm_is_blocking vs the attribute, getsockname vs "
+             "xcm.local_addr and the peer's remote address, TLS flags and names; spec/AttrTrace.tla validates (get_after_set, in_force, "
+             "inherit, eacces, blocking, service, source_addr).",
+        ref="5/C11", tech="TLA+ model checking (TLC) + model-generated behaviours replayed on real sockets with kernel options read back, validated by a trace specification",
+        note="Trusted base: TLC + CommunityModules; the kernel's getsockopt. Releasing a held connect costs the kernel's 1 s SYN retransmission; "
+             "situations that never settle are skipped and counted, never reported. One finding recorded (xcm.service accepts writes after "
+             "creation)."),
 }
 
 NOT_APPLICABLE = {}
